@@ -14,10 +14,21 @@ isomorphism method (all renamings brute-forced, <= 6 quantum registers).  Report
 comparison must be reflexive on copies, symmetric, and insensitive to wrapping / identities where the method normalises;
 every circuit dropped by a filter must be equivalent to one that is kept.
 
-Known finding (D22, generalised — see handoff/export.md): the coded node/edge matchers of `circuit_is_isomorphic` do not
-see which wire continues through a two-register node nor the roles at classically controlled operations; the model
-mirrors this, `Properties/C15.lean` refutes the full statement with kernel-checked witnesses, and those witnesses are
-replayed on the implementation on every run.
+D22 / D22′ (fixed in /repo 0d0996e, handoff/repairs/d22): the matcher of `circuit_is_isomorphic` used to see neither which
+wire continues through a two-register node nor the roles at classically controlled operations.  After the repair every
+edge carries the pair (role of its register at the operation it leaves, role at the operation it enters), roles c/t/m.
+
+Two variants of the implementation are supported (`variant()` probes which one is under test by looking at the attribute
+`add_control_target_to_dag` writes on the D22 witness):
+  repaired  (what /repo is now) compared with `circuitIsIsomorphic2` / `isoNormalised2` / `removeRedundant2` (`iso2`,
+            `isonorm2`, `kept2`, `stiso2`, graph dumps with `ct=2`).  For this matcher `Properties/C15.lean` *proves* the
+            full statement (`iso_sound`, `iso_normalised_sound`, `dedup_sound`), so a false-equal is a plain VIOLATION (no
+            finding key covers it), the witnesses must be told apart, and on every pair the model's own answer is checked
+            against the model's brute-force `renEq` (reported isomorphic => equal up to renaming).
+  coded     the matcher before the repair: compared with `circuitIsIsomorphic` / `isoNormalised` / `removeRedundant`, for
+            which `Properties/C15.lean` keeps the kernel-checked refutation (`iso_sound_refuted`).  The key
+            `is_isomorphic:wire-continuity:false-equal` is emitted only for this variant; it is no longer in
+            known_findings.txt, so a regression of the repair is reported as a VIOLATION.
 """
 import itertools
 
@@ -27,19 +38,25 @@ from harness.common import Driver, Result, err_class
 LEVEL = "proof"
 TRUSTED_BASE = [
     "Lean 4.33 kernel",
-    "hand-written model GraphiqModel/Model/Compare.lean (multigraph with ordered edges, direct, coded iso matcher, filters) tied to "
-    "circuit_comparison.py / circuit_dag.py by this correspondence run (graphs compared node by node and key by key)",
+    "hand-written model GraphiqModel/Model/Compare.lean (multigraph with ordered edges, direct, the isomorphism matcher before and after the "
+    "D22' repair, filters) tied to circuit_comparison.py / circuit_dag.py by this correspondence run (graphs compared node by node, key by key "
+    "and attribute by attribute, before and after normalisation; all comparison results, filters and storages exactly)",
     "networkx.is_isomorphic assumed to decide existence of a bijection satisfying node_match/edge_match and preserving edge multiplicities "
-    "(checked against the model's backtracking search on every pair)",
-    "equal per-register operation sequences imply equal compiled states (commutation of operations on disjoint registers; C13/C01), evaluated "
-    "here by the direct oracle only",
+    "(the theorems are about every bijection that passes the check `isoCheck2`, never about the search; the model's backtracking search is "
+    "compared with networkx' answer on every pair)",
+    "'same compiled state' from 'same operation sequence on every register': proved for every semantics in which operations on disjoint quantum "
+    "registers commute (Properties/C15.iso_sound_same_compiled_state) and instantiated with C13's verified stabilizer semantics "
+    "(iso_sound_same_stabilizer_state) through the definitional translation `toSOp` (Proofs/CompareRepairStab.lean) of an executed operation of this "
+    "model into an operation of C13's compile sequence — that translation is read, not tested; the direct oracle below evaluates the compiled states themselves",
     "StabilizerCompiler + harness/tabutil.span_canon as the state oracle; harness, line protocol",
 ]
 ASSUMPTIONS = [
-    "quantifier: circuits over the 13 non-parameterised operation classes and OneQubitGateWrapper on <= 6 quantum registers (oracle bound); "
-    "parameterised rotations are outside (direct/is_isomorphic ignore parameters and direct's isinstance test is asymmetric for RX/RY/RZ vs "
-    "ParameterizedOneQubitRotation — recorded in handoff/export.md)",
-    "'same state' = same distribution over final stabilizer states; the classical record is not part of the state (direct ignores c_registers)",
+    "quantifier: circuits over the 13 non-parameterised operation classes and OneQubitGateWrapper whose operations act on registers of the "
+    "circuit and on pairwise different ones (control != target) — `WellFormed`; state oracle on <= 6 quantum registers; parameterised rotations "
+    "are outside (direct/is_isomorphic ignore parameters and direct's isinstance test is asymmetric for RX/RY/RZ vs ParameterizedOneQubitRotation "
+    "— recorded in handoff/export.md)",
+    "'same state' = same distribution over final stabilizer states; the classical record is not part of the state (direct ignores c_registers; "
+    "the repaired isomorphism comparison does distinguish classical registers — it is finer, which is sound)",
     "GED-based methods are evaluated by the oracle only (networkx graph_edit_distance with a 10 s timeout is not modelled)",
 ]
 
@@ -69,6 +86,27 @@ def safe(f):
         return str(int(bool(f())))
     except Exception as e:  # noqa: BLE001
         return "err:" + err_class(e)
+
+
+_VARIANT = None
+
+
+def variant():
+    """'repaired' iff `add_control_target_to_dag` writes a pair of roles on the edges (handoff/repairs/d22), else 'coded'"""
+    global _VARIANT
+    if _VARIANT is None:
+        from graphiq.utils.circuit_comparison import add_control_target_to_dag
+
+        c = build(WITNESSES[1][1]).copy()
+        add_control_target_to_dag(c)
+        attrs = [d.get("control_target") for _, _, d in c.dag.edges(data=True)]
+        _VARIANT = "repaired" if any(isinstance(a, tuple) for a in attrs) else "coded"
+    return _VARIANT
+
+
+def fld(k):
+    """name of the model's reply field for the implementation's method `k` under the variant under test"""
+    return k + "2" if (variant() == "repaired" and k in ("iso", "isonorm", "kept", "stiso")) else k
 
 
 def iso_norm(ca, cb):
@@ -295,10 +333,16 @@ def check_pair(res, kind, c1, c2, rep, want_state=True):
         rep = {}
     else:
         for k in ("direct", "iso", "isonorm"):
-            if rep.get(k) != impl[k]:
-                res.exact_break(f"compare:{k}", input=inp, impl=impl[k], model=rep.get(k))
+            if rep.get(fld(k)) != impl[k]:
+                res.exact_break(f"compare:{k}", input=inp, impl=impl[k], model=rep.get(fld(k)))
+        # the theorem of Properties/C15.lean evaluated on the model itself: the repaired matcher reports isomorphic only
+        # if the model's brute-force search finds a renaming of same-type registers (no oracle bound on this check)
+        for k in ("iso2", "isonorm2"):
+            if rep.get(k) == "1" and rep.get("reneq") != "1":
+                res.violation(f"model:{k}:not-renEq", "the model of the repaired matcher reports isomorphic but no renaming makes the wires equal "
+                              "(contradicts Properties/C15.iso_sound)", input=inp, model=rep.get("_raw", "")[:200])
         if rep.get("directl") != impl["direct"]:
-            # the operation-list form of `direct` (the one the theorems are about) must agree with the implementation too
+            # the operation-list form of `direct` (proved equal to the walk model for well-formed circuits) must agree with the implementation too
             res.exact_break("compare:direct (operation-list form)", input=inp, impl=impl["direct"], model=rep.get("directl"))
         res.traces_validated += 1
     same_regs = c1[:3] == c2[:3]
@@ -324,16 +368,19 @@ def check_pair(res, kind, c1, c2, rep, want_state=True):
         if impl[meth] == "1" and usable:
             eq, _ = cu.equivalent_up_to_renaming(ca, cb)
             if eq is False:
-                coded = rep.get(meth) == "1" and rep.get("reneq") == "0"
-                key = K_WIRE if coded else f"{meth}:false-equal:not-the-coded-matcher"
+                coded = variant() == "coded" and rep.get(meth) == "1" and rep.get("reneq") == "0"
+                key = K_WIRE if coded else (f"{meth}:false-equal:not-the-coded-matcher" if variant() == "coded" else f"{meth}:false-equal:repaired-matcher")
                 res.violation(key, "the isomorphism comparison reports equal but no renaming of same-type registers makes the compiled states equal",
                               input=inp, method=meth, model=rep.get("_raw", "")[:200])
         elif impl[meth].startswith("err"):
             res.violation(f"{meth}:raises:{impl[meth]}", "isomorphism comparison raised on two valid circuits", input=inp)
     if kind == "copy" and impl["iso"] != "1":
         res.violation("is_isomorphic:not-reflexive", "a circuit is not isomorphic to its copy", input=inp)
+    if kind == "renamed" and (impl["iso"] != "1" or impl["isonorm"] != "1"):
+        res.violation("is_isomorphic:false-distinct:renamed", "a circuit is not isomorphic to a copy with the registers of each type permuted", input=inp,
+                      impl=f"{impl['iso']}/{impl['isonorm']}")
     if kind in ("rewritten",) and same_wires and impl["isonorm"] == "0":
-        coded = rep.get("isonorm") == "0"
+        coded = rep.get(fld("isonorm")) == "0"
         res.violation(K_IDENT if coded else "remove_redundant:false-distinct:not-the-coded-matcher",
                       "after unwrapping and identity removal two copies of one circuit are still reported different", input=inp)
     return impl
@@ -393,8 +440,8 @@ def run_pairs(res, drv, pairs, want_state=True):
             if r12[k] != r21[k]:
                 res.violation(f"{k}:asymmetric", "comparison gives different answers for (a,b) and (b,a)", input={"a": enc(c1), "b": enc(c2)},
                               impl=f"{r12[k]} vs {r21[k]}")
-            if reps[n + i].get(k) != r21[k] and reps[n + i]["_status"] == "ok":
-                res.exact_break(f"compare:{k}", input={"a": enc(c2), "b": enc(c1)}, impl=r21[k], model=reps[n + i].get(k))
+            if reps[n + i].get(fld(k)) != r21[k] and reps[n + i]["_status"] == "ok":
+                res.exact_break(f"compare:{k}", input={"a": enc(c2), "b": enc(c1)}, impl=r21[k], model=reps[n + i].get(fld(k)))
         res.count("sizes", f"qubits={c1[0] + c1[1]}")
         res.count("sizes", "ops<=5" if len(c1[3]) <= 5 else ("ops<=12" if len(c1[3]) <= 12 else "ops>12"))
     if lines:
@@ -411,7 +458,7 @@ def run_history(res, drv, rng, n):
         c = random_small(rng) if rng.random() < 0.8 else random_small(rng, max_q=5, max_ops=16)
         w = rng.random()
         d = c if w < 0.5 else (mutate_one(rng, c) if w < 0.8 else (order_swapped(rng, c) or c))
-        specs.append((c, d, rng.choice(["replace", "replace", "insert"]), rng.getrandbits(32)))
+        specs.append((c, d, rng.choice(["replace", "replace", "insert", "insert-mid"]), rng.getrandbits(32)))
     reps = drv.batch([f"c15.cmp a={enc(c)} b={enc(d)}" for c, d, _, _ in specs])
     import random as _random
     for (c, d, mode, sd), rep in zip(specs, reps):
@@ -429,8 +476,8 @@ def run_history(res, drv, rng, n):
             same_wires = c[:3] == d[:3] and wires_no_c(c[3]) == wires_no_c(d[3])
             if tag == "ab" and rep["_status"] == "ok":
                 for k in ("direct", "iso", "isonorm"):
-                    if rep.get(k) != impl[k]:
-                        res.exact_break(f"compare:{k} (second circuit reached by a {mode} history)", input=inp, impl=impl[k], model=rep.get(k))
+                    if rep.get(fld(k)) != impl[k]:
+                        res.exact_break(f"compare:{k} (second circuit reached by a {mode} history)", input=inp, impl=impl[k], model=rep.get(fld(k)))
             if impl["direct"] == "1" and not same_wires:
                 res.violation("direct:false-equal:history", "direct reports equal but the circuits differ on some register (second circuit reached by an edit history)", input=inp)
             elif impl["direct"] == "0" and d == c:
@@ -465,8 +512,15 @@ def dump_impl(c, norm, ct):
     pairs = {}
     for u in c.dag.nodes:
         for v in c.dag[u]:
-            pairs[(str(u), str(v))] = [(k, (c.dag[u][v][k].get("control_target") or "-")) for k in c.dag[u][v]]
+            pairs[(str(u), str(v))] = [(k, show_attr(c.dag[u][v][k].get("control_target"))) for k in c.dag[u][v]]
     return nodes, pairs, cu.regs_of(c)
+
+
+def show_attr(a):
+    """`control_target` attribute as the model prints it: a role ('c', 't', 'm', '-' for None), or the two roles of the repaired attribute"""
+    if isinstance(a, tuple):
+        return "".join(x or "-" for x in a)
+    return a or "-"
 
 
 def dump_model(rep):
@@ -482,7 +536,7 @@ def run_graphs(res, drv, circs):
     for c in circs:
         for norm in (0, 1):
             for ct in (0, 1):
-                lines.append(f"c15.graph c={enc(c)} norm={norm} ct={ct}")
+                lines.append(f"c15.graph c={enc(c)} norm={norm} ct={2 if (ct and variant() == 'repaired') else ct}")
                 meta.append((c, norm, ct))
     reps = drv.batch(lines)
     for (c, norm, ct), rep, ln in zip(meta, reps, lines):
@@ -540,13 +594,13 @@ def run_filters(res, drv, rng, n_lists):
         if rep["_status"] != "ok":
             res.exact_break("c15.filter", input=inp, model=rep["_raw"][:300])
         else:
-            mk = [] if rep["kept"] == "-" else [int(x) for x in rep["kept"].split(".")]
+            mk = [] if rep[fld("kept")] == "-" else [int(x) for x in rep[fld("kept")].split(".")]
             if mk != kept_idx:
                 res.exact_break("remove_redundant_circuits", input=inp, impl=str(kept_idx), model=str(mk))
             if rep["stdirect"] != flags_d:
                 res.exact_break("CircuitStorage(default check)", input=inp, impl=flags_d, model=rep["stdirect"])
-            if rep["stiso"] != flags_i:
-                res.exact_break("CircuitStorage(isomorphism check)", input=inp, impl=flags_i, model=rep["stiso"])
+            if rep[fld("stiso")] != flags_i:
+                res.exact_break("CircuitStorage(isomorphism check)", input=inp, impl=flags_i, model=rep[fld("stiso")])
             res.traces_validated += 1
         res.count("branches", f"filter:kept={len(kept_idx)}of{len(lst)}" if len(lst) <= 4 else "filter:long-list")
         res.nontrivial("filter", tuple(inp["list"]))
@@ -563,7 +617,8 @@ def run_filters(res, drv, rng, n_lists):
                     break
             if not ok:
                 # the known finding only covers what the matcher *as coded* (= the model) does
-                coded = rep["_status"] == "ok" and ([] if rep["kept"] == "-" else [int(x) for x in rep["kept"].split(".")]) == kept_idx
+                coded = (variant() == "coded" and rep["_status"] == "ok"
+                         and ([] if rep["kept"] == "-" else [int(x) for x in rep["kept"].split(".")]) == kept_idx)
                 res.violation(K_WIRE if coded else "remove_redundant:discarded-inequivalent",
                               "remove_redundant_circuits dropped a circuit that is inequivalent (under every renaming) to every circuit kept",
                               input=inp, dropped=i, kept=str(kept_idx))
@@ -580,6 +635,9 @@ def run_filters(res, drv, rng, n_lists):
 # ------------------------------------------------------------------------------------------------ known-finding witnesses
 E0, E1 = ("e", 0), ("e", 1)
 WITNESSES = [
+    # smallest: the roles at a classically controlled operation (witA / witB of Properties/C15.lean)
+    ("classical-control-roles", (2, 0, 1, [("one", "Hadamard", E0), ("cctrl", "ClassicalCNOT", E1, E0, 0)]),
+     (2, 0, 1, [("one", "Hadamard", E0), ("cctrl", "ClassicalCNOT", E0, E1, 0)])),
     # D22 as recorded in DESIGN §5
     ("D22", (2, 0, 0, [("ctrl", "CNOT", E1, E0), ("one", "Hadamard", E0), ("ctrl", "CNOT", E1, E0), ("ctrl", "CNOT", E1, E0)]),
      (2, 0, 0, [("ctrl", "CNOT", E1, E0), ("one", "Hadamard", E0), ("ctrl", "CNOT", E1, E0), ("ctrl", "CNOT", E0, E1)])),
@@ -599,12 +657,18 @@ def run_witnesses(res, drv):
         impl = impl_results(ca, cb)
         res.evaluations += 1
         eq, _ = cu.equivalent_up_to_renaming(ca, cb)
-        if rep.get("iso") != impl["iso"]:
-            res.exact_break("compare:iso (witness)", input={"a": enc(a), "b": enc(b)}, impl=impl["iso"], model=rep.get("iso"))
+        if rep.get(fld("iso")) != impl["iso"]:
+            res.exact_break("compare:iso (witness)", input={"a": enc(a), "b": enc(b)}, impl=impl["iso"], model=rep.get(fld("iso")))
+        if rep.get("iso") != "1" or rep.get("iso2") != "0":
+            # Properties/C15.lean: the coded matcher accepts the witnesses (`iso_witnesses`), the repaired one rejects them (`iso2_witnesses`)
+            res.exact_break("witness: model replies differ from the kernel-checked ones", input={"a": enc(a), "b": enc(b)}, model=rep.get("_raw", "")[:200])
         if impl["iso"] == "1" and eq is False:
             reproduced = True
-            res.violation(K_WIRE, f"witness {name}: is_isomorphic reports equal, yet the compiled states differ under every register renaming",
+            res.violation(K_WIRE if variant() == "coded" else "iso:false-equal:repaired-matcher",
+                          f"witness {name}: is_isomorphic reports equal, yet the compiled states differ under every register renaming",
                           input={"kind": "witness:" + name, "a": enc(a), "b": enc(b)})
+    res.notes.append(f"implementation variant under test: {variant()} matcher")
+    res.count("branches", f"variant:{variant()}")
     if not reproduced:
         res.known_gone.append(K_WIRE)
 
